@@ -172,6 +172,8 @@ func (x *gen) addrV2Entry() []byte {
 		n = []int{0, 1, 16, 511, 512, 513}[x.r.Intn(6)]
 	} else if x.r.Chance(1, 10) {
 		n += []int{-1, 1}[x.r.Intn(2)]
+	} else if x.r.Chance(1, 8) {
+		n = []int{4, 10, 16, 32}[x.r.Intn(4)] // another network's size
 	}
 	b.WriteByte(id)
 	wire.WriteVarInt(&b, 0, uint64(n))
@@ -565,6 +567,9 @@ func (x *gen) messageLevel(b built, pver uint32, enc string, p []byte) {
 		case 2:
 			st = append([]byte{}, good...)
 			st[r.Intn(len(st))] ^= byte(1 << r.Intn(8))
+		case 3:
+			cmds := [][]byte{append([]byte{0}, []byte(b.kind)...), append([]byte(b.kind), 0, 'x'), []byte(b.kind + " "), {0xff, 0xfe}}
+			st = frameMsg(net, cmds[r.Intn(len(cmds))], uint32(len(p)), ck, p)
 		}
 		x.emit("api-agree", true, fmt.Sprintf("C08 api %d %d %s", pver, net, hx(st)))
 	}
@@ -937,6 +942,7 @@ func (P) Generate(g *core.Gen) {
 	}
 	x.sequences()
 	x.helperAPIs()
+	x.primitives()
 	// random garbage into every decoder
 	for i := 0; i < g.N(300, 6000); i++ {
 		kind := kinds[r.Intn(len(kinds))]
@@ -1166,6 +1172,22 @@ func (x *gen) helperAPIs() {
 			subs = append(subs, "block/70016/w/"+hx(w.Bytes()))
 		}
 	}
+	// input/output counts on either side of the compact-size boundary (the two counts are separate fields)
+	for _, c := range [][2]int{{1, 0xfc}, {1, 0xfd}, {0xfd, 1}, {0xfc, 0xfd}, {0xfd, 0xfd}, {2, 0xfe}} {
+		t := &wire.MsgTx{Version: 2}
+		for i := 0; i < c[0]; i++ {
+			in := &wire.TxIn{Sequence: uint32(i)}
+			if i == c[0]-1 && r.Bool() {
+				in.Witness = [][]byte{{1}}
+			}
+			t.TxIn = append(t.TxIn, in)
+		}
+		for i := 0; i < c[1]; i++ {
+			t.TxOut = append(t.TxOut, &wire.TxOut{Value: int64(i), PkScript: r.Bytes(r.Intn(3))})
+		}
+		x.emit("txapi", true, "C08 txapi "+hx(serTx(t)))
+		subs = append(subs, "tx/70016/w/"+hx(serTx(t)))
+	}
 	// truncated / extended bytes into the helper ops
 	for i := 0; i < x.g.N(20, 200); i++ {
 		p := serTx(mk(r.Intn(5)))
@@ -1209,4 +1231,60 @@ func joinWith(l []string, sep string) string {
 		s += o
 	}
 	return s
+}
+
+// primitives: the exported field-level readers/writers of common.go / msgtx.go, the Add… caps, NetAddressV2FromBytes.
+func (x *gen) primitives() {
+	r := x.r
+	vi := func(v uint64) []byte {
+		var w bytes.Buffer
+		wire.WriteVarInt(&w, 0, v)
+		return w.Bytes()
+	}
+	lens := []int{0, 1, 2, 0xfb, 0xfc, 0xfd, 0xfe, 0xff, 0x100, 519, 520, 521, 0xfffe, 0xffff, 0x10000, 0x10001}
+	for _, n := range lens {
+		body := r.Bytes(n)
+		good := append(vi(uint64(n)), body...)
+		x.emit("varstr", true, "C08 varstr "+hx(append(append([]byte{}, good...), r.Bytes(r.Intn(3))...)))
+		if n > 0 {
+			x.emit("varstr", true, "C08 varstr "+hx(good[:len(good)-1]))
+		}
+		for _, mx := range []int{n - 1, n, n + 1} {
+			if mx >= 0 {
+				x.emit("varbytes", true, fmt.Sprintf("C08 varbytes %d %s", mx, hx(good)))
+			}
+		}
+		x.emit("txout", true, "C08 txout "+hx(append(append(r.Bytes(8), vi(uint64(n))...), body...)))
+		// non-minimal length prefix
+		if n < 0xfd {
+			x.emit("varstr", true, "C08 varstr "+hx(append([]byte{0xfd, byte(n), 0}, body...)))
+			x.emit("txout", true, "C08 txout "+hx(append(append(r.Bytes(8), 0xfd, byte(n), 0), body...)))
+		}
+	}
+	for _, v := range []uint64{wire.MaxMessagePayload - 1, wire.MaxMessagePayload, wire.MaxMessagePayload + 1, 4000000, 4000001, 1 << 32, ^uint64(0)} {
+		x.emit("varstr", true, "C08 varstr "+hx(append(vi(v), 1, 2, 3)))
+		x.emit("txout", true, "C08 txout "+hx(append(append(r.Bytes(8), vi(v)...), 1, 2, 3)))
+		x.emit("varbytes", true, fmt.Sprintf("C08 varbytes %d %s", uint32(v), hx(append(vi(v), 1, 2, 3))))
+	}
+	for i := 0; i < 12; i++ {
+		h := x.hash()
+		x.emit("outpoint", true, fmt.Sprintf("C08 outpoint %s %d", hx(h[:]), x.u32()))
+	}
+	for _, k := range []string{"inv", "getdata", "notfound", "headers", "getblocks", "getheaders", "addr", "cfheaders", "merkleblock"} {
+		x.emit("addcap", true, "C08 addcap "+k)
+	}
+	for _, n := range []int{0, 3, 4, 5, 9, 10, 11, 15, 16, 17, 31, 32, 33} {
+		for k := 0; k < 2; k++ {
+			a := r.Bytes(n)
+			if n == 16 && k == 0 {
+				switch r.Intn(3) {
+				case 0:
+					copy(a, []byte{0xfd, 0x87, 0xd8, 0x7e, 0xeb, 0x43})
+				case 1:
+					copy(a, []byte{0, 0, 0, 0, 0, 0, 0, 0, 0, 0, 0xff, 0xff})
+				}
+			}
+			x.emit("fromv2", true, fmt.Sprintf("C08 fromv2 %s %d", hx(a), uint16(x.u32())))
+		}
+	}
 }
